@@ -237,3 +237,10 @@ Definition obs_eqb (a b: option (list nat * nat)) : bool :=
   | Some (l1, b1), Some (l2, b2) => Nat.eqb b1 b2 && (Nat.eqb (List.length l1) (List.length l2) && forallb (fun p => Nat.eqb (fst p) (snd p)) (combine l1 l2))
   | _, _ => false
   end.
+
+(* ---- the three keys Registry.get derives from a declared field type ----
+   rt = substitution of the field's resolved type parameters (get_real_type), org = get_type_origin,
+   isann = is_annotated; t = declared type, a = annotated_type already on the spec (kept when t is
+   not Annotated).  Result: (annotated alias, exact type, origin). *)
+Definition keys_after (rt org: kv -> kv) (isann: kv -> bool) (t a: kv) : kv * kv * kv :=
+  if isann t then (rt t, rt (org t), org (rt (org t))) else (a, rt t, org (rt t)).
